@@ -186,6 +186,11 @@ def build_gate(case, objs):
         g = qib.PhaseFactorGate(gd["phi"], gd["m"])
         g.on(ps)
         return g
+    if k == "prepare":
+        g = qib.PrepareGate(np.array(gd["vec"], dtype=float), gd["m"], transpose=gd["transpose"])
+        if ps:
+            g.on(ps)
+        return g
     if k == "controlled":
         nc = gd["nc"]
         tg = build_gate({"gate": gd["target"], "particles": case["particles"][nc:]}, objs)
@@ -435,6 +440,15 @@ def gen_embed(tier, rng):
             for iw in itertools.permutations(range(n), m):
                 yield {"op": "embed", "n": n, "iw": list(iw), "g": rand_gauss(rng, 2 ** m)}
                 yield {"op": "embed", "n": n, "iw": list(iw), "g": rand_gauss(rng, 2 ** m, sparse=True), "layout": rng.choice(LAYOUTS)}
+    # wider gates in both tiers: every ordering of 4 (and a sample of 5) CONTIGUOUS wires at every offset (structure that a fast path for
+    # "neighbouring wires" would key on), and random non-contiguous selections
+    for n, m in ((4, 4), (5, 4), (6, 4), (6, 5)) + (((7, 5), (8, 5), (7, 6)) if tier == "thorough" else ()):
+        for start in range(0, n - m + 1):
+            perms = list(itertools.permutations(range(start, start + m)))
+            for iw in (perms if m == 4 else rng.sample(perms, 12)):
+                yield {"op": "embed", "n": n, "iw": list(iw), "g": rand_gauss(rng, 2 ** m)}
+        for _ in range(6):
+            yield {"op": "embed", "n": n, "iw": rng.sample(range(n), m), "g": rand_gauss(rng, 2 ** m, sparse=True)}
     # n = 0: the empty register
     yield {"op": "embed", "n": 0, "iw": [], "g": [[[3, -1]]]}
     # malformed stream
@@ -474,7 +488,7 @@ def rand_unitary(rng, m):
 
 def rand_gate_desc(rng, max_m):
     """-> (descriptor, number of wires)"""
-    kinds = ["general", "general", "iswap", "single", "rzz", "phase", "controlled", "controlled", "multiplexed"]
+    kinds = ["general", "general", "iswap", "single", "rzz", "phase", "controlled", "controlled", "multiplexed", "prepare"]
     while True:
         k = rng.choice(kinds)
         if k == "general":
@@ -491,9 +505,21 @@ def rand_gate_desc(rng, max_m):
         if k == "phase":
             m = rng.randint(1, min(2, max_m))
             return {"kind": "phase", "phi": rng.uniform(-3, 3), "m": m}, m
+        if k == "prepare":
+            m = rng.randint(1, min(2, max_m))
+            v = [rng.choice([0.0, rng.uniform(-2, 2), rng.uniform(0.1, 1)]) for _ in range(2 ** m)]
+            if sum(abs(x) for x in v) == 0:
+                v[rng.randrange(len(v))] = 1.0
+            return {"kind": "prepare", "m": m, "vec": v, "transpose": rng.random() < 0.5}, m
         if k == "controlled" and max_m >= 2:
             nc = rng.randint(1, min(2, max_m - 1))
-            tk = rng.choice(["general", "single", "iswap"])
+            tk = rng.choice(["general", "single", "iswap", "nested", "nested"])
+            if tk == "nested" and max_m - nc >= 2:
+                # a controlled gate whose target is itself a controlled gate, with independent control patterns on both levels
+                nc2 = rng.randint(1, min(2, max_m - nc - 1))
+                inner = {"kind": "controlled", "nc": nc2, "ctrl_state": [rng.randint(0, 1) for _ in range(nc2)],
+                         "target": {"kind": "single", "cls": rng.choice(["RyGate", "RxGate"]), "args": [rng.uniform(-3, 3)]}}
+                return {"kind": "controlled", "nc": nc, "ctrl_state": [rng.randint(0, 1) for _ in range(nc)], "target": inner}, nc + nc2 + 1
             if tk == "general":
                 tm = rng.randint(1, min(2, max_m - nc))
                 t = {"kind": "general", "m": tm, "mat": dense_json(rand_unitary(rng, tm))}
